@@ -549,6 +549,18 @@ func bvText(fr *frame, bv *Term, base int) StrV {
 	return mkStr(bs)
 }
 
+func init() {
+	// crypto/elliptic.Unmarshal: either not a point (nil, nil) or some coordinates
+	reg("crypto/elliptic.Unmarshal", func(fr *frame, fn *ssa.Function, a []Value) Value {
+		p := fr.p
+		if p.concreteMode || p.choose(make([]*Term, 2), "elliptic.Unmarshal outcome") == 0 {
+			return Tuple{(*Value)(nil), (*Value)(nil)}
+		}
+		var x, y Value = BigVal{p.internalVar("ecx", SInt)}, BigVal{p.internalVar("ecy", SInt)}
+		return Tuple{&x, &y}
+	})
+}
+
 func bigText(fr *frame, x *Term, base int) Value {
 	if x.IsConst() {
 		return StrV{S: x.C.Text(base)}
